@@ -5,6 +5,7 @@ pub type ParseResult<T> = Result<T, ParseError>;
 pub const INVALID: &'static ParseError = &ParseError;
 pub trait ParseISO8601<T> {
 //@ fn chronoutil.rs trait ParseISO8601 :: parse_from_iso8601
+//@ params s
 //@ props C08
 //@ spec
         requires latin1_only(s@) //# C08 name=input_is_latin1_so_regex_digits_are_ascii
